@@ -5,8 +5,9 @@ CONSTANTS
   Items = {0, 1}
   Vals = {0, 1}
   PairItems = {0, 1}
-  MaxLen = 2
+  LawItems = {0}
+  MaxLen = 1
   EMIT = TRUE
-INVARIANTS C05Inv ImplInv Emit
+INVARIANTS C05Inv ImplInv AlsoInv Emit
 PROPERTIES NoResurrection
 CHECK_DEADLOCK FALSE
